@@ -33,24 +33,25 @@ JIdx(T, f, nl, R) ==
 
 JRead(T, f, r) == (r.exc = "" /\ r.got = SubSeq(f[r.k].res, r.s, r.e)) \/ Say(T, "V", "C04.random_access", FileCls(T))
 
-FirstSame(T, S) == CHOOSE q \in 1..Len(T.streams) : T.streams[q].a = S.a /\ T.streams[q].L = S.L
+Gc(S) == IF "gc" \in DOMAIN S THEN S.gc ELSE "N"
+FirstSame(T, S) == CHOOSE q \in 1..Len(T.streams) : T.streams[q].a = S.a /\ T.streams[q].L = S.L /\ Gc(T.streams[q]) = Gc(S)
 JStream(T, f, S) ==
   LET rows == T.asms[S.a]  cls == IF HasStrand0(rows) THEN "strand0" ELSE "stranded" IN
   IF S.exc # "" THEN Say(T, "V", "C03.record_content", "exc:" \o S.exc)
   ELSE
   /\ TLCSet(2, TLCGet(2) + 1)
-  /\ (Flat(S.lines) = Expected(f, rows) \/ Say(T, "V", "C03.record_content", cls))
+  /\ (Flat(S.lines) = ExpectedG(f, rows, Gc(S)) \/ Say(T, "V", "C03.record_content", cls \o (IF Gc(S) = "N" THEN "" ELSE "/gap-character")))
   /\ (S.lines = Wrap(Flat(S.lines), S.L) \/ Say(T, "V", "C03.line_wrap", cls))
   /\ (S.hdr = 1 \/ Say(T, "V", "C03.record_header", cls))
   /\ (S.lines = T.streams[FirstSame(T, S)].lines \/ Say(T, "V", "C13.stream_buffer_independent", cls))
   /\ ((S.maxchunk <= S.B /\ S.maxread <= S.B) \/ Say(T, "V", "C13.chunk_bounded", cls))
-  /\ (S.a > T.derived \/ Flat(S.lines) = NormN(f[S.a].res) \/ Say(T, "V", "C04.stream_back", FileCls(T)))
-  /\ (S.lines = StreamLines(f, rows, S.B, S.L) /\ (S.maxchunk = 0 \/ S.maxchunk = MaxChunk(f, rows, S.B))) \/ Say(T, "M", "write_scaffold", cls)
+  /\ (S.a > T.derived \/ Gc(S) # "N" \/ Flat(S.lines) = NormN(f[S.a].res) \/ Say(T, "V", "C04.stream_back", FileCls(T)))
+  /\ (Gc(S) # "N" \/ (S.lines = StreamLines(f, rows, S.B, S.L) /\ (S.maxchunk = 0 \/ S.maxchunk = MaxChunk(f, rows, S.B))) \/ Say(T, "M", "write_scaffold", cls))
 \* revpairs: <<a, b>> = assembly b is Scaffold.reverse() of assembly a (rows recorded from the real reversal)
 JRevPair(T, pr) ==
   \A q1 \in 1..Len(T.streams) : \A q2 \in 1..Len(T.streams) :
      LET S1 == T.streams[q1]  S2 == T.streams[q2] IN
-     (S1.a = pr[1] /\ S2.a = pr[2] /\ S1.B = S2.B /\ S1.L = S2.L /\ S1.exc = "" /\ S2.exc = "") =>
+     (S1.a = pr[1] /\ S2.a = pr[2] /\ S1.B = S2.B /\ S1.L = S2.L /\ Gc(S1) = Gc(S2) /\ S1.exc = "" /\ S2.exc = "") =>
         /\ TLCSet(3, TLCGet(3) + 1)
         /\ (Flat(S2.lines) = RevComp(Flat(S1.lines))
               \/ Say(T, "V", "C14.stream_reverse", IF HasStrand0(T.asms[pr[1]]) THEN "row-with-unknown-strand" ELSE "stranded"))
@@ -69,7 +70,8 @@ JRev(T) ==
        \* histories: a reversal after one of the two scaffolds was changed is the reversal of the rows as they are NOW
        /\ ((T.rev_again = FlipT(T.rows) /\ T.rev_of_changed = FlipT(T.changed) /\ T.rev_after_own_change = FlipT(T.own_changed))
              \/ Say(T, "V", "C14.reverse_once", "after-change"))
-       /\ ("inplace" \notin DOMAIN T \/ (T.rev_of_inplace = FlipT(T.inplace) /\ T.rev_of_appended = FlipT(T.appended))
+       /\ ("inplace" \notin DOMAIN T \/ (T.rev_of_inplace = FlipT(T.inplace) /\ T.rev_of_appended = FlipT(T.appended)
+                                          /\ ("own_appended" \notin DOMAIN T \/ T.rev_after_own_append = FlipT(T.own_appended)))
              \/ Say(T, "V", "C14.reverse_once", "after-change-in-place"))
 
 CompCodes == <<<<65, 84>>, <<66, 86>>, <<67, 71>>, <<68, 72>>, <<71, 67>>, <<72, 68>>, <<75, 77>>, <<77, 75>>, <<78, 78>>, <<82, 89>>, <<83, 83>>, <<84, 65>>, <<86, 66>>, <<87, 87>>, <<89, 82>>, <<97, 116>>, <<98, 118>>, <<99, 103>>, <<100, 104>>, <<103, 99>>, <<104, 100>>, <<107, 109>>, <<109, 107>>, <<110, 110>>, <<114, 121>>, <<115, 115>>, <<116, 97>>, <<118, 98>>, <<119, 119>>, <<121, 114>>>>
